@@ -109,6 +109,9 @@ class Unit:
             elif cmd == 'item':
                 self.do_item(pos[0], pos[1], pos[2], kw)
                 i += 1
+            elif cmd == 'builder':
+                self.do_builder(pos[0], pos[1], kw)
+                i += 1
             elif cmd == 'fromimpl':
                 self.do_fromimpl(pos[0], pos[1], kw)
                 i += 1
@@ -248,6 +251,108 @@ class Unit:
         first = len(self.lines)
         self.emit_mapped(t, raw, rel, src.text.count('\n', 0, it.start) + 1)
         self.fns.append((first + 1, len(self.lines), header, header, rel, it.line))
+
+    def do_builder(self, rel, name, kw):
+        """Stand-in for the code `#[derive(Builder)]` (derive_builder 0.20) generates for struct `name`:
+        the builder struct (one `Option<T>` per field), `default()`, the generated setters (real, trivial
+        bodies) and `build()` as an ASSUMED contract derived from the `#[builder(..)]` attributes:
+        validate first (if any), mandatory fields must be set, unset `default` fields take `Default::default()`."""
+        src = self.src(rel)
+        try:
+            it = src.find('struct', name)
+        except LookupError as e:
+            raise AnchorLost(str(e))
+        raw = src.text[it.start:it.end]
+        m = mask(raw)
+        # struct-level attribute
+        head_attrs = raw[:it.text_start - it.start]
+        has_validate = 'validate' in head_attrs
+        hm = re.search(r'\bstruct\s+' + name + r'\s*(<[^{>]*>)?\s*(where[^{]*)?\{', self.rw.strip_comments(raw[it.text_start - it.start:]), re.S)
+        if not hm:
+            raise Unsupported('builder: cannot parse struct header of ' + name)
+        gen = (hm.group(1) or '').strip()
+        where = (hm.group(2) or '').strip()
+        gen_use = re.sub(r':[^,>]*', '', gen)   # <'a, ReasonT>
+        ob = m.index('{', it.text_start - it.start)
+        cb = match_close(m, ob)
+        body = raw[ob + 1:cb]
+        bm = mask(body)
+        # split fields at top-level commas
+        fields, depth, ang, last = [], 0, 0, 0
+        for q, ch in enumerate(bm):
+            if ch in '([{':
+                depth += 1
+            elif ch in ')]}':
+                depth -= 1
+            elif ch == '<':
+                ang += 1
+            elif ch == '>' and ang > 0 and bm[q - 1] != '-':
+                ang -= 1
+            elif ch == ',' and depth == 0 and ang == 0:
+                fields.append(body[last:q])
+                last = q + 1
+        if body[last:].strip():
+            fields.append(body[last:])
+        parsed = []
+        for f in fields:
+            ft = self.rw.strip_comments(f).strip()
+            if not ft:
+                continue
+            attrs = ' '.join(re.findall(r'#\[builder\((.*?)\)\]', ft, re.S))
+            decl = re.sub(r'#\[[^\]]*\]', '', ft, flags=re.S).strip()
+            fm = re.match(r'(?:pub(?:\s*\([^)]*\))?\s+)?(\w+)\s*:\s*(.*)$', decl, re.S)
+            if not fm:
+                raise Unsupported('builder: cannot parse field `%s`' % decl[:40])
+            fname, fty = fm.group(1), ' '.join(fm.group(2).split())
+            parsed.append((fname, fty, 'default' in attrs, 'strip_option' in attrs, 'custom' in attrs))
+        b = name + 'Builder'
+        out = []
+        out.append('// ---- derive_builder output for `%s` (ASSUMED: mirrors the macro expansion, not in the repository) ----' % name)
+        for g in re.findall(r"(?<!')\b([A-Z]\w*)\b", gen_use):
+            out.append('#[verifier::reject_recursive_types(%s)]' % g)
+        out.append('pub struct %s%s %s {' % (b, gen, where))
+        for (fname, fty, dflt, strip, custom) in parsed:
+            out.append('    pub %s: Option<%s>,' % (fname, fty))
+        out.append('}')
+        out.append('impl%s %s%s %s {' % (gen, b, gen_use, where))
+        out.append('    pub fn default() -> (r: Self)')
+        out.append('        ensures ' + ', '.join('r.%s is None' % f[0] for f in parsed) + ',')
+        out.append('    { %s { %s } }' % (b, ', '.join('%s: None' % f[0] for f in parsed)))
+        for (fname, fty, dflt, strip, custom) in parsed:
+            if custom:
+                continue
+            if strip:
+                inner = re.match(r'Option<(.*)>$', fty)
+                if not inner:
+                    raise Unsupported('builder: strip_option on non-Option field ' + fname)
+                out.append('    pub fn %s(&mut self, value: %s) -> (r: &mut Self)' % (fname, inner.group(1)))
+                val = 'Some(Some(value))'
+            else:
+                out.append('    pub fn %s(&mut self, value: %s) -> (r: &mut Self)' % (fname, fty))
+                val = 'Some(value)'
+            others = ''.join(', final(self).%s == old(self).%s' % (g[0], g[0]) for g in parsed if g[0] != fname)
+            out.append('        ensures final(self).%s == %s%s, *final(r) == *final(self),' % (fname, val, others))
+            out.append('    { self.%s = %s; self }' % (fname, val))
+        mand = [f[0] for f in parsed if not f[2]]
+        ok_cond = ' && '.join((['Self::validate_ok(*self)'] if has_validate else []) + ['self.%s is Some' % f for f in mand]) or 'true'
+        out.append('    #[verifier::external_body]')
+        out.append('    pub fn build(&self) -> (r: Result<%s%s, CodecError>)' % (name, gen_use))
+        out.append('        ensures')
+        out.append('            r is Ok <==> (%s),' % ok_cond)
+        for (fname, fty, dflt, strip, custom) in parsed:
+            if not dflt:
+                out.append('            r matches Ok(x) ==> self.%s == Some(x.%s),' % (fname, fname))
+            elif fty.startswith('Option<'):
+                out.append('            r matches Ok(x) ==> x.%s == (match self.%s { Some(v) => v, None => None }),' % (fname, fname))
+            else:
+                out.append('            r matches Ok(x) ==> (match self.%s { Some(v) => x.%s == v, None => call_ensures(<%s as core::default::Default>::default, (), x.%s) }),' % (fname, fname, fty, fname))
+        out.append('    { unimplemented!() }')
+        out.append('}')
+        self.emit('\n'.join(out), ('src', rel, it.line))
+        for k in range(len('\n'.join(out).split('\n'))):
+            self.origin[-1 - k] = ('src', rel, it.line)
+        self.rw.hit('W0.builder_standin')
+        self.extracted.append((rel, 'derive_builder stand-in for ' + name))
 
     def do_fromimpl(self, rel, header, kw):
         """copy `impl From<A> for B` verbatim and emit the vstd spec glue (FromSpecImpl) whose
